@@ -175,7 +175,42 @@ fn relocate(path: &str, root: &str) -> String {
     }
 }
 
+/// A logger that takes every record and renders its arguments (into nothing): what `beff -v` does
+/// to the process as far as the compiler can tell. The maximum level is process-global; exactly
+/// one simulated process runs at a time.
+struct NullLogger;
+impl log::Log for NullLogger {
+    fn enabled(&self, _: &log::Metadata) -> bool {
+        true
+    }
+    fn log(&self, record: &log::Record) {
+        use std::fmt::Write;
+        struct Sink;
+        impl std::fmt::Write for Sink {
+            fn write_str(&mut self, _: &str) -> std::fmt::Result {
+                Ok(())
+            }
+        }
+        let _ = write!(Sink, "{}", record.args());
+    }
+    fn flush(&self) {}
+}
+static NULL_LOGGER: NullLogger = NullLogger;
+pub fn set_verbose(on: bool) {
+    static ONCE: std::sync::Once = std::sync::Once::new();
+    ONCE.call_once(|| {
+        let _ = log::set_logger(&NULL_LOGGER);
+    });
+    log::set_max_level(if on { log::LevelFilter::Trace } else { log::LevelFilter::Off });
+}
+
 pub fn fresh_process(fs: &Fs, entry: &str, settings: &Settings, v: &Variant) -> FreshResult {
+    set_verbose(v.verbose);
+    let r = fresh_process_inner(fs, entry, settings, v);
+    set_verbose(false);
+    r
+}
+fn fresh_process_inner(fs: &Fs, entry: &str, settings: &Settings, v: &Variant) -> FreshResult {
     if let Some(root) = &v.root {
         // same project, other absolute location; outputs are mapped back to "/p"
         let fs2: Fs = fs.iter().map(|(k, c)| (relocate(k, root), c.clone())).collect();
